@@ -88,6 +88,17 @@ def scenarios(ob):
                 break
         if not out and not job.ready():
             out.append('job lost at t=1000 with a timeout of 10 s is still unresolved at t=%.0f' % clock[0])
+    elif 'reaps_nothing' in ob:
+        # D12: the worker that accepted the job was reaped before its ACK was handled; no other worker exits afterwards
+        p = mkpool([FakeWorker(7), FakeWorker(8)])
+        job = pool.ApplyResult(p._cache, None, lost_worker_timeout=10.0)
+        job._ack(None, 999.0, 4242, None)           # 4242 is not in the pool any more
+        for tick in range(30):
+            clock[0] += 5.0
+            p._join_exited_workers()
+        if not job.ready() and not job._worker_lost:
+            out.append('job accepted by worker 4242, which had been reaped before its ACK was handled; no other worker exits: '
+                       'after 30 ticks (150 s, lost-worker timeout 10 s) the job has no loss record -- the caller waits forever')
     elif 'vanished_worker' in ob or 'gone_worker' in ob:
         # the worker that accepted the job was reaped in an earlier tick, before its ACK was handled; a later tick
         # reaps another worker: the job must get its loss record then
@@ -125,8 +136,12 @@ def main():
     if 'bounded_cross_check' in ob:
         # thorough tier: every scenario group
         bad = []
-        for name in ('grace_period', 'registries', 'never_replaced', 'vanished_worker', 'reaped_worker_is_marked', 'other'):
-            bad += scenarios(name)
+        known = data.get('known_finding_obligations', [])
+        if known:
+            print('  known findings skipped: %s' % ', '.join(known))
+        for name in ('grace_period', 'registries', 'never_replaced', 'vanished_worker', 'reaps_nothing', 'reaped_worker_is_marked', 'other'):
+            if not any(name in k for k in known):
+                bad += scenarios(name)
     else:
         bad = scenarios(ob)
     for b in bad:
